@@ -7,6 +7,20 @@ COMMON_TB = [
 ]
 
 PROPS = {
+    "C04": {
+        "lean_targets": ["BA.Props.C04"],
+        "harness": "c04",
+        "translators": ["extract_constants.py"],
+        "trusted_base": COMMON_TB + [
+            "the real fil_actor_miner::Partition / ExpirationQueue / BitFieldQueue / State::allocate_sector_numbers are driven through their pub API on an in-memory blockstore; a failing call is rolled back by the harness (clone/restore) as the actor's transaction would",
+            "sector power (raw = sector size, QA from fil_actor_miner::qa_power_for_sector) is an input of the model per sector; the QA-power formula itself is not modelled",
+        ],
+        "assumptions": [
+            "set arguments are bitfields (duplicate-free); the infos handed to add_sectors are the Sectors-table infos of distinct sector numbers (lib.rs glue guarantees both); the Sectors AMT stores each info under its own sector number",
+            "one quantisation spec per partition (it belongs to one deadline); quantisation unit > 0",
+            "bounded_iter limits (25000 addressed sectors, 10000 sectors per queue entry) and u64/i64 overflow are not modelled",
+        ],
+    },
     "C16": {
         "lean_targets": ["BA.Props.C16"],
         "harness": "c16",
